@@ -57,7 +57,15 @@ def run(ctx):
             t['id'] += len(traces)
         traces += t3
         meta.update({k + len(traces) - len(t3): v for k, v in m3.items()})
-        t2, m2 = SP.run_k2_streams(ctx, streams, first_id=len(traces), limit=120 if ctx.quick else 400)
+        # untagged ANY holding values in indefinite-length form (the universe's ANY values are definite): hand-made streams,
+        # complete data with None injected at every single read call and pairs of them
+        h = bytes.fromhex
+        anyseq = {'k': 'seq', 'tags': [], 'comps': [{'name': 'a', 't': P.sc('int'), 'mode': 'req'}, {'name': 'x', 't': P.sc('any'), 'mode': 'req'}]}
+        handmade = [SP.Stream(len(streams) + len(big) + 1, P.sc('any'), [list(h('30800201010000')), list(h('24800401610401620000'))], 'ber', True,
+                              'ANY holding indefinite-length values'),
+                    SP.Stream(len(streams) + len(big) + 2, anyseq, [list(h('300a02010530800201010000')), list(h('30800201063080020101000000 00'.replace(' ', '')))],
+                              'ber', True, 'SEQUENCE with an ANY member holding indefinite-length values')]
+        t2, m2 = SP.run_k2_streams(ctx, streams + handmade, first_id=len(traces), limit=120 if ctx.quick else 400)
         traces += t2
         meta.update(m2)
         SP.finish_streams(ctx, sc, traces, meta, clauses=CLAUSES)
